@@ -220,12 +220,15 @@ def matchesQ (lower : String → String) (idents : List Ident) (q : Query) (e : 
   andMatch (if q.noLabel then [e.labels.isEmpty] else []) &&
   andMatch (q.title.map fun t => contains e.titleLower (lower t))
 
-/-- `Less` of the three sorters -/
+/-- `Less` of the three sorters (Lamport time, then timestamp, then id: a total order on bugs
+with distinct ids) -/
 def less (ob : OrderBy) (a b : Excerpt) : Bool :=
   match ob with
   | .id => a.id < b.id
-  | .creation => a.createLamport < b.createLamport || (a.createLamport == b.createLamport && a.createUnix < b.createUnix)
-  | .edit => a.editLamport < b.editLamport || (a.editLamport == b.editLamport && a.editUnix < b.editUnix)
+  | .creation => a.createLamport < b.createLamport ||
+      (a.createLamport == b.createLamport && (a.createUnix < b.createUnix || (a.createUnix == b.createUnix && a.id < b.id)))
+  | .edit => a.editLamport < b.editLamport ||
+      (a.editLamport == b.editLamport && (a.editUnix < b.editUnix || (a.editUnix == b.editUnix && a.id < b.id)))
 
 def insertBy (lt : Excerpt → Excerpt → Bool) (x : Excerpt) : List Excerpt → List Excerpt
   | [] => [x]
